@@ -59,13 +59,15 @@ def run(ck: Check) -> int:
     ck.trust('specs/crypto_b58.py, specs/crypto_sig.py (validated against octez-client vectors recorded in /repo/tests)')
     ck.trust('cryptography 50 (OpenSSL) as independent verifier')
     ck.rule('R: keys (recorded + boundary scalars 1, n-1 / all-0, all-1 seeds + hash-derived) x messages (empty, 1 byte, '
-            'ascii, hex-looking, 32, 64, 1000 bytes) x {specific, generic} x {bytes, hex, 0x-hex}; per signature: '
+            'ascii, 32, 1000 bytes; thorough adds hex-looking and 64 bytes) x {specific, generic} x {bytes, hex, 0x-hex}; per signature: '
             'bit/byte alterations of message, raw signature, base58 text and public key, all other keys of the set, '
             'prefix/curve mismatches; class = (curve, generic, form | alteration target:operation, clause)')
     chunks = K.enumerate_cases(ck.tier, ck.seed)
     ck.bound('chunks', len(chunks))
     ck.bound('elementary_cases', sum(len(c) for c in chunks))
     ck.bound('keys_per_curve', '4 (BLS 2) quick / 8 (BLS 2) thorough')
+    ck.bound('bls_quick_selection', 'py_ecc budget: (recorded key, b"test") with one representative per alteration target, '
+             '(scalar 1, b"") sign + one rejection; the thorough tier runs the full alteration lists for 2 keys x 3 messages')
     results = CC.pmap(K.eval_chunk, chunks)
     seen_viol = {}
     for chunk_res in results:
